@@ -107,6 +107,22 @@ pub const SECOND_STATEMENTS: &[(&str, &str)] = &[
     ("two_statements.number", " 7"),
 ];
 
+/// a single token appended to a statement's own line that cannot continue it: (name, text,
+/// statement kinds after which it WOULD be legal)
+pub const TRAILING_TOKENS: &[(&str, &str, &[&str])] = &[
+    ("trailing_token.back", " back", &["return"]),
+    ("trailing_token.up", " up", &["inc", "dec", "rounding"]),
+    ("trailing_token.down", " down", &["inc", "dec", "rounding", "break"]),
+    ("trailing_token.else", " else", &[]),
+    ("trailing_token.top", " top", &[]),
+    ("trailing_token.than", " than", &[]),
+    ("trailing_token.be", " be", &[]),
+    ("trailing_token.to", " to", &["input"]),
+    ("trailing_token.like", " like", &["array_push"]),
+    ("trailing_token.takes", " takes", &[]),
+    ("trailing_token.string", " \"junk\"", &[]),
+];
+
 fn line_of_offset(text: &str, off: usize) -> u32 {
     1 + text.as_bytes()[..off].iter().filter(|b| **b == b'\n').count() as u32
 }
@@ -226,6 +242,27 @@ pub fn inject_all(ctx: &mut Ctx, r: &Rendered, rng: &mut Rng, positions: usize, 
             }
         }
     }
+    // B2: a single junk token at the end of a non-poetic statement's own line
+    for _ in 0..2 {
+        let k = rng.below(n);
+        let st = &r.stmts[k];
+        let poetic = matches!(st.kind, "poetic_number" | "poetic_string" | "array_push");
+        if poetic || st.end_off == 0 {
+            continue;
+        }
+        let (name, extra, legal_after) = TRAILING_TOKENS[rng.below(TRAILING_TOKENS.len())];
+        if legal_after.contains(&st.kind) {
+            continue;
+        }
+        // (a listen without destination followed by ` to` needs an identifier: still an error, but
+        // other kinds are simply excluded above)
+        let mut t = String::with_capacity(text.len() + extra.len());
+        t.push_str(&text[..st.end_off]);
+        t.push_str(extra);
+        t.push_str(&text[st.end_off..]);
+        let ml = has_multiline_before(text, r, st.line_start_off);
+        check(ctx, name, &t, st.end_line, ml);
+    }
     // C: a faulty last line
     if text.ends_with('\n') {
         let e = rng.below(FAULT_LINES.len());
@@ -247,6 +284,10 @@ pub fn run(ctx: &mut Ctx) {
         }
         for (name, extra) in SECOND_STATEMENTS {
             check(ctx, name, &format!("say 1{}\n", extra), 1, false);
+        }
+        for (name, extra, _) in TRAILING_TOKENS {
+            check(ctx, name, &format!("say 1{}\n", extra), 1, false);
+            check(ctx, name, &format!("put 1 into Zork{}\nsay 2\n", extra), 1, false);
         }
     });
     let exhaustive = !ctx.is_quick();
